@@ -50,10 +50,9 @@ def main():
                               ["Ok", "NoCrash", "NoDeadlock"], workers=8, timeout=900)
         else:
             r = V.model_check(wd, "self_%s_%s" % (dev, prop), c["module"], P.constants_smc(c, [prop], dev=tuple(dev.split("+"))),
-                              ["Ok", "NoPanic"], constraints=["Stop", "Depth"], view="View", workers=1, timeout=3600)
-            # (one worker: with the history hidden from the fingerprint, a state first reached by a
-            # longer path is cut by the depth bound although a shorter path exists; several workers do
-            # not explore strictly level by level, so what lies at the bound is then a matter of timing)
+                              ["Ok", "NoPanic"], constraints=["Stop", "Depth"], view="ViewD", workers=8, timeout=1800)
+            # (ViewD: the length of the history is part of the fingerprint, so the depth bound cuts
+            # exactly and the outcome does not depend on the order in which the workers find states)
         rejected = (not r["ok"]) and r["violated"] in ("Ok", "NoPanic")
         if over.get("control"):
             # a control: this deviation alone must stay silent on this slice (so that the case it
